@@ -233,8 +233,10 @@ def respond (d : Deny) (s : Store) (acct c : Nat) (out : Outcome) : Store × Res
 
 /-- api.GetChallenge + deviceAttest01Validate for a device-attest-01 challenge. `az` is the
     authorization id of the request URL: the handler copies it into `ch.AuthorizationID` without
-    checking that the challenge belongs to it, the validator loads that authorization first and,
-    on success, writes the attested key fingerprint into it before it writes the challenge.
+    checking that the challenge belongs to it, the validator loads that authorization first,
+    refuses it unless it belongs to the challenge's account (365cae8) and lists the challenge among
+    its own (e055659) and, on success, writes the attested key fingerprint into it before it writes
+    the challenge.
     Failures of the attestation are `storeError(markInvalid = true)`; status-500 errors (`retry`,
     `dbError` here) are returned without a write. Other challenge types ignore `az`. -/
 def attest (d : Deny) (s : Store) (acct c az : Nat) (out : Outcome) : Store × Resp :=
@@ -249,6 +251,32 @@ def attest (d : Deny) (s : Store) (acct c az : Nat) (out : Outcome) : Store × R
       | some azr =>
         if !azr.chals.all (fun c => (s.chals[c]?).isSome) then (s, .notFound)
         -- (since /repo 365cae8) the URL's authorization must belong to the challenge's account
+        else if azr.acct ≠ ch.acct then (s, .unauthorized)
+        -- (since /repo e055659) and the challenge must be one of that authorization's own challenges
+        -- (an authorization without challenges is exempt: it can never become valid)
+        else if !azr.chals.isEmpty && !azr.chals.contains c then (s, .unauthorized)
+        else match out.key with
+          | none =>
+            match out with
+            | .reject => if d = .chal c then (s, .ise) else (setChal s c ch .invalid, .ok .invalid)
+            | _ => (s, .ise)
+          | some k =>
+            if d = .authz az then (s, .ise)
+            else if d = .chal c then (setFp s az azr k, .ise)
+            else (setChal (setFp s az azr k) c ch .valid, .ok .valid)
+
+/-- `attest` as it was before /repo e055659: any authorization of the account could be named in the URL -/
+def attestHistoric (d : Deny) (s : Store) (acct c az : Nat) (out : Outcome) : Store × Resp :=
+  match s.chals[c]? with
+  | none => (s, .notFound)
+  | some ch =>
+    if ch.acct ≠ acct then (s, .unauthorized)
+    else if ch.status ≠ .pending then (s, .ok ch.status)
+    else if !ch.attest then respond d s acct c out
+    else match s.authzs[az]? with
+      | none => (s, .notFound)
+      | some azr =>
+        if !azr.chals.all (fun c => (s.chals[c]?).isSome) then (s, .notFound)
         else if azr.acct ≠ ch.acct then (s, .unauthorized)
         else match out.key with
           | none =>
